@@ -183,6 +183,7 @@ type mEnt struct {
 	sigs      map[ethcommon.Address][]byte
 	published bool
 	msg       *Msg
+	snaps     []*GSet // every set the message was observed under so far (re-observations after a set change add one)
 }
 
 type Model struct {
@@ -234,6 +235,7 @@ func (md *Model) OnMsg(m *Msg) Expect {
 		md.ent[h] = e
 	}
 	e.observed, e.snap, e.msg = true, md.Cur, m
+	e.snaps = append(e.snaps, md.Cur)
 	k := vlib.Key(NodeKey)
 	ex.Obs = []*gossipv1.SignedObservation{{Addr: vlib.Addr(k).Bytes(), Hash: m.Digest, Signature: vlib.Sign(k, m.Digest), TxHash: m.Pub.TxHash.Bytes(), MessageId: m.ID}}
 	return ex
@@ -329,6 +331,14 @@ func (md *Model) OnInbound(b []byte) Expect {
 func (md *Model) Published(m *Msg) bool {
 	e := md.ent[hex.EncodeToString(m.Digest)]
 	return e != nil && e.published
+}
+
+// SnapsOf returns every guardian set the node has observed m under so far, oldest first.
+func (md *Model) SnapsOf(m *Msg) []*GSet {
+	if e := md.ent[hex.EncodeToString(m.Digest)]; e != nil {
+		return e.snaps
+	}
+	return nil
 }
 
 func (md *Model) SnapOf(m *Msg) *GSet {
